@@ -180,11 +180,18 @@ func (c *Ctx) ruleSQLAgreement(rule string, tables map[string]bool) {
 				} else {
 					okAll, why := true, ""
 					used := map[string]string{}
+					if st.ArgsFn != nil && st.ArgsFn != st.Fn {
+						o = c.P.OriginsOf(st.ArgsFn)
+					}
+					afn := st.Fn
+					if st.ArgsFn != nil {
+						afn = st.ArgsFn
+					}
 					for i, a := range st.Args {
 						if i >= len(cols) {
 							break
 						}
-						if len(st.Args) == 1 && len(st.Fn.Params) == 2 {
+						if len(st.Args) == 1 && len(afn.Params) == 2 {
 							// a single placeholder bound to the method's single parameter: nothing to confuse
 							if e := o.Of(a); e.K == "param" {
 								continue
@@ -485,6 +492,10 @@ func (c *Ctx) scannedLocalsReachResult(rule string, methods ...string) {
 				n++
 				R.Check(rule, fk, "column "+col+" scanned into local "+dest.Comment+" reaches the result", c.P.InstrPos(st.Scan), flowsOut(dest),
 					"a column scanned into a local variable is carried into the returned value", "the local is not used for anything the method returns")
+				if okV, whyV, isNullable := nullableReadWhenValid(c, dest); isNullable {
+					R.Check(rule, fk, "nullable column "+col+" is read where it is valid", c.P.InstrPos(st.Scan), okV,
+						"the value of a nullable column is taken on the side of the test where the column is valid (not only where it is NULL)", whyV)
+				}
 			}
 		}
 	}
@@ -671,4 +682,58 @@ func (c *Ctx) readersReturnEveryRow(rule string, methods ...string) {
 	if n == 0 {
 		R.Unresolved(rule, "list readers "+strings.Join(methods, ","), "no row loop found")
 	}
+}
+
+// nullableReadWhenValid: dest is a local of a database/sql Null type. Some read of its value member must be
+// reachable with every "Valid is false" edge removed (and constant branches folded): a test with the wrong
+// polarity, or a branch switched off, reads the value only for NULL columns.
+func nullableReadWhenValid(c *Ctx, dest *ssa.Alloc) (ok bool, why string, nullable bool) {
+	if !strings.HasPrefix(strings.TrimPrefix(typeShort(c.P, dest.Type()), "*"), "sql.Null") || dest.Referrers() == nil {
+		return true, "", false
+	}
+	g := dest.Parent()
+	cut := NewCut()
+	var reads []ssa.Instruction
+	for _, r := range *dest.Referrers() {
+		fa, isFA := r.(*ssa.FieldAddr)
+		if !isFA || fa.Referrers() == nil {
+			continue
+		}
+		for _, r2 := range *fa.Referrers() {
+			ld, isLd := r2.(*ssa.UnOp)
+			if !isLd || ld.Op != token.MUL {
+				continue
+			}
+			if fieldName(fa) != "Valid" {
+				reads = append(reads, ld)
+				continue
+			}
+			// branches on this Valid load (possibly negated)
+			for _, bb := range g.Blocks {
+				if len(bb.Instrs) == 0 {
+					continue
+				}
+				ifi, isIf := bb.Instrs[len(bb.Instrs)-1].(*ssa.If)
+				if !isIf {
+					continue
+				}
+				cond, neg := ifi.Cond, false
+				if un, isNot := cond.(*ssa.UnOp); isNot && un.Op == token.NOT {
+					cond, neg = un.X, true
+				}
+				if cond == ssa.Value(ld) {
+					cut.Edges[Edge{bb, 1 - boolInt(neg)}] = true // the side taken when Valid is false
+				}
+			}
+		}
+	}
+	if len(reads) == 0 {
+		return true, "", true // flowsOut decides whether it is used at all
+	}
+	for _, rd := range reads {
+		if reach, _ := ReachFromEntry(g, rd, cut); reach {
+			return true, "", true
+		}
+	}
+	return false, "every read of " + dest.Comment + "'s value lies on the side where " + dest.Comment + ".Valid is false (or in a branch that is never taken)", true
 }
